@@ -548,16 +548,17 @@ impl Tcp {
                 Some(sock) => sock.buffer(seq, SequencedSegment::Data(data))?,
                 None => return Err(Protocol::Tcp(Segment::Rst)),
             },
-            Segment::Fin(seq) => match self.sockets.get_mut(&SocketPair::new(dst, src)) {
-                Some(sock) => sock.buffer(seq, SequencedSegment::Fin)?,
+            Segment::Fin(seq) => {
                 // A FIN for a stream that is already gone carries no data
                 // that could be lost: the receiver closed (dropped) its end
                 // after consuming everything and the two FINs crossed on the
                 // wire. Answering with a RST would reset the sender's stream
                 // and throw away what is still in flight towards it, turning
                 // a graceful close into an abortive one.
-                None => {}
-            },
+                if let Some(sock) = self.sockets.get_mut(&SocketPair::new(dst, src)) {
+                    sock.buffer(seq, SequencedSegment::Fin)?
+                }
+            }
             Segment::Rst => {
                 if let Some(sock) = self.sockets.swap_remove(&SocketPair::new(dst, src)) {
                     // A writer parked on exhausted credits would otherwise
